@@ -191,11 +191,12 @@ class LogWatch(object):
           return orig(logger, msg, *args, **kwargs)
         n0 = len(lw.msgs)
         t0 = lw.tick()
-        try:
-          return orig(logger, msg, *args, **kwargs)
-        finally:
-          if len(lw.msgs) == n0:
-            lw.suppressed.append({'name': logger.name, 'level': name, 'b': t0, 'e': lw.tick(), 'msg': str(msg)[:60]})
+        ret = orig(logger, msg, *args, **kwargs)
+        # (reached only when the call returned normally: a call cut short by the phase kill
+        # carries no promise)
+        if len(lw.msgs) == n0:
+          lw.suppressed.append({'name': logger.name, 'level': name, 'b': t0, 'e': lw.tick(), 'msg': str(msg)[:60]})
+        return ret
       return method
 
     for lname in ('debug', 'info', 'warning', 'error', 'critical'):
